@@ -449,14 +449,14 @@ class SvgScene:
 # ------------------------------------------------------------------ COLR scene
 
 class ColrScene:
-    def __init__(self, font, glyph_name: str, apply_clip=True):
+    def __init__(self, font, glyph_name: str, apply_clip=True, palette_index=0):
         self.font = font
         self.glyph_name = glyph_name
         self.glyphset = font.getGlyphSet()
         self._outlines: Dict[str, pathops.Path] = {}
         colr = font["COLR"]
         self.version = colr.version
-        cpal = font["CPAL"].palettes[0] if "CPAL" in font else []
+        cpal = font["CPAL"].palettes[palette_index] if "CPAL" in font else []
         self.palette = [(c.red / 255, c.green / 255, c.blue / 255, c.alpha / 255) for c in cpal]
         self.apply_clip = apply_clip
         self.leaves: List[Leaf] = []
